@@ -527,7 +527,7 @@ func TestVerifC05Dispatch(t *testing.T) {
 			c.Corpus = rapid.IntRange(0, 2).Draw(t, "corpus") == 0
 			if !c.Corpus {
 				modeNum := map[string]int32{"both": 0, "client": 1, "server": 2}[c.Mode]
-				c.Suites = vfGenSuites(t, modeNum)
+				c.Suites = vfClearPresets(vfGenSuites(t, modeNum))
 				for i := range c.Suites {
 					// raw responses need an explicit expectation and a real server: not here
 					for j := range c.Suites[i].Cases {
@@ -541,7 +541,7 @@ func TestVerifC05Dispatch(t *testing.T) {
 				// in-process reference peers do real work per case: keep these runs small
 				c.Corpus = false
 				if len(c.Suites) == 0 {
-					c.Suites = vfGenSuites(t, map[string]int32{"client": 1, "server": 2}[c.Mode])
+					c.Suites = vfClearPresets(vfGenSuites(t, map[string]int32{"client": 1, "server": 2}[c.Mode]))
 				}
 			}
 			for i := range c.Suites {
